@@ -12,10 +12,48 @@ pub struct F<'a> {
     pub f: &'a Formatter,
     /// go through the type's own `format(picture)` method + Display instead of `Formatter::format`
     pub via_display: bool,
+    /// history: first render the same value through Display into a sink that fails after this many bytes (-1 = no such step)
+    pub fail_cap: i32,
+}
+/// a fmt sink with room for `cap` bytes
+struct LimitedFmt {
+    cap: usize,
+}
+impl std::fmt::Write for LimitedFmt {
+    fn write_str(&mut self, s: &str) -> std::fmt::Result {
+        if s.len() > self.cap {
+            self.cap = 0;
+            return Err(std::fmt::Error);
+        }
+        self.cap -= s.len();
+        Ok(())
+    }
+}
+fn render_into_limited(st: &mut Stats, c: &F, lv: &LV) {
+    use std::fmt::Write;
+    let mut sink = LimitedFmt { cap: c.fail_cap.max(0) as usize };
+    macro_rules! via {
+        ($op:expr, $x:expr) => {{
+            st.op($op);
+            match $x.format(c.pic) {
+                Ok(d) => write!(sink, "{}", d).is_ok(),
+                Err(_) => true,
+            }
+        }};
+    }
+    let ok = match *lv {
+        LV::Date(x) => via!(Op::D_format, x),
+        LV::Time(x) => via!(Op::T_format, x),
+        LV::Ts(x) => via!(Op::TS_format, x),
+        LV::Ora(x) => via!(Op::O_format, x),
+        LV::YM(x) => via!(Op::YM_format, x),
+        LV::DT(x) => via!(Op::DT_format, x),
+    };
+    st.bump(if ok { "renderings into the limited sink that fitted (or were refused)" } else { "renderings into the limited sink that failed" });
 }
 impl<'a> Case for F<'a> {
     fn to_json(&self) -> Value {
-        json!({"kind": "format", "value": self.v.to_json(), "show": self.v.show(), "picture": self.pic, "via_display": self.via_display})
+        json!({"kind": "format", "value": self.v.to_json(), "show": self.v.show(), "picture": self.pic, "via_display": self.via_display, "fail_cap": self.fail_cap})
     }
 }
 
@@ -88,6 +126,9 @@ pub fn check(st: &mut Stats, c: &F) {
             return;
         }
     };
+    if c.fail_cap >= 0 {
+        render_into_limited(st, c, &lv);
+    }
     let real = lib_format(st, c, &lv);
     let exp = render(&c.v, c.toks);
     let ty = c.v.ty().name();
@@ -270,7 +311,7 @@ pub fn run(ctx: &Ctx, st: &mut Stats) {
     ctx.par(st, "(a) Date: all dates x date-token spellings", true, 0, (N_DAYS as i64 + stride - 1) / stride, |st, i, _| {
         let v = v_date(MIN_DAY + (i * stride) as i32);
         for p in dp.iter() {
-            st.eval(&F { v, pic: &p.text, toks: &p.toks, f: &p.f, via_display: false }, check);
+            st.eval(&F { v, pic: &p.text, toks: &p.toks, f: &p.f, via_display: false, fail_cap: -1 }, check);
         }
     });
     if stride == 1 {
@@ -289,7 +330,7 @@ pub fn run(ctx: &Ctx, st: &mut Stats) {
                 }
                 let v = V::Date(y as i32, m, d);
                 for p in dp.iter().step_by(if ctx.tier == Tier::San { 7 } else { 1 }) {
-                    st.eval(&F { v, pic: &p.text, toks: &p.toks, f: &p.f, via_display: false }, check);
+                    st.eval(&F { v, pic: &p.text, toks: &p.toks, f: &p.f, via_display: false, fail_cap: -1 }, check);
                 }
             }
         }
@@ -300,8 +341,8 @@ pub fn run(ctx: &Ctx, st: &mut Stats) {
         let (y, m, d) = cal().of(MIN_DAY + (i * s2) as i32);
         let (h, mi, s) = ((i % 24) as u32, (i % 60) as u32, (i * 7 % 60) as u32);
         for p in dp.iter() {
-            st.eval(&F { v: V::Ts(y, m, d, h, mi, s, (i % 1_000_000) as u32), pic: &p.text, toks: &p.toks, f: &p.f, via_display: false }, check);
-            st.eval(&F { v: V::Ora(y, m, d, h, mi, s), pic: &p.text, toks: &p.toks, f: &p.f, via_display: false }, check);
+            st.eval(&F { v: V::Ts(y, m, d, h, mi, s, (i % 1_000_000) as u32), pic: &p.text, toks: &p.toks, f: &p.f, via_display: false, fail_cap: -1 }, check);
+            st.eval(&F { v: V::Ora(y, m, d, h, mi, s), pic: &p.text, toks: &p.toks, f: &p.f, via_display: false, fail_cap: -1 }, check);
         }
     });
     // (a') pool dates x bit-structured times of day x date/time tokens on Timestamp (date part and time part are split from one count)
@@ -316,7 +357,7 @@ pub fn run(ctx: &Ctx, st: &mut Stats) {
         let t = bts_ref[(i as usize) % bts_ref.len()];
         let (h, mi, s, us) = tod_fields(t);
         for p in mixed_ref.iter() {
-            st.eval(&F { v: V::Ts(y, m, d, h, mi, s, us), pic: &p.text, toks: &p.toks, f: &p.f, via_display: false }, check);
+            st.eval(&F { v: V::Ts(y, m, d, h, mi, s, us), pic: &p.text, toks: &p.toks, f: &p.f, via_display: false, fail_cap: -1 }, check);
         }
     });
     // (b) all seconds x time token spellings on Time; sampled on the other types
@@ -326,11 +367,11 @@ pub fn run(ctx: &Ctx, st: &mut Stats) {
         let s = i * sstride;
         let (h, mi, sec) = ((s / 3600) as u32, (s / 60 % 60) as u32, (s % 60) as u32);
         for p in tp.iter() {
-            st.eval(&F { v: V::Time(h, mi, sec, 0), pic: &p.text, toks: &p.toks, f: &p.f, via_display: false }, check);
+            st.eval(&F { v: V::Time(h, mi, sec, 0), pic: &p.text, toks: &p.toks, f: &p.f, via_display: false, fail_cap: -1 }, check);
             if s % 7 == 0 {
-                st.eval(&F { v: V::Ts(2021, 3, 11, h, mi, sec, 999_999), pic: &p.text, toks: &p.toks, f: &p.f, via_display: false }, check);
-                st.eval(&F { v: V::Ora(1969, 12, 31, h, mi, sec), pic: &p.text, toks: &p.toks, f: &p.f, via_display: false }, check);
-                st.eval(&F { v: V::DT(s % 2 == 1, 5, h, mi, sec, 1), pic: &p.text, toks: &p.toks, f: &p.f, via_display: false }, check);
+                st.eval(&F { v: V::Ts(2021, 3, 11, h, mi, sec, 999_999), pic: &p.text, toks: &p.toks, f: &p.f, via_display: false, fail_cap: -1 }, check);
+                st.eval(&F { v: V::Ora(1969, 12, 31, h, mi, sec), pic: &p.text, toks: &p.toks, f: &p.f, via_display: false, fail_cap: -1 }, check);
+                st.eval(&F { v: V::DT(s % 2 == 1, 5, h, mi, sec, 1), pic: &p.text, toks: &p.toks, f: &p.f, via_display: false, fail_cap: -1 }, check);
             }
         }
     });
@@ -343,12 +384,12 @@ pub fn run(ctx: &Ctx, st: &mut Stats) {
     ctx.par(st, "(c) Time: all microseconds x FF,FF1..FF9", true, 0, 1_000_000 / ustride, |st, i, _| {
         let us = (i * ustride) as u32;
         for p in fp.iter() {
-            st.eval(&F { v: V::Time(23, 59, 59, us), pic: &p.text, toks: &p.toks, f: &p.f, via_display: false }, check);
+            st.eval(&F { v: V::Time(23, 59, 59, us), pic: &p.text, toks: &p.toks, f: &p.f, via_display: false, fail_cap: -1 }, check);
         }
         if us % 1009 == 0 {
             for p in fp.iter() {
-                st.eval(&F { v: V::Ts(1, 1, 1, 0, 0, 0, us), pic: &p.text, toks: &p.toks, f: &p.f, via_display: false }, check);
-                st.eval(&F { v: V::DT(true, 100, 0, 0, 0, us), pic: &p.text, toks: &p.toks, f: &p.f, via_display: false }, check);
+                st.eval(&F { v: V::Ts(1, 1, 1, 0, 0, 0, us), pic: &p.text, toks: &p.toks, f: &p.f, via_display: false, fail_cap: -1 }, check);
+                st.eval(&F { v: V::DT(true, 100, 0, 0, 0, us), pic: &p.text, toks: &p.toks, f: &p.f, via_display: false, fail_cap: -1 }, check);
             }
         }
     });
@@ -378,7 +419,7 @@ pub fn run(ctx: &Ctx, st: &mut Stats) {
                     continue;
                 }
                 for p in &ym_pics {
-                    st.eval(&F { v: V::YM(neg, y, m), pic: &p.text, toks: &p.toks, f: &p.f, via_display: false }, check);
+                    st.eval(&F { v: V::YM(neg, y, m), pic: &p.text, toks: &p.toks, f: &p.f, via_display: false, fail_cap: -1 }, check);
                 }
             }
         }
@@ -406,7 +447,7 @@ pub fn run(ctx: &Ctx, st: &mut Stats) {
                     continue;
                 }
                 for p in &dt_pics {
-                    st.eval(&F { v: V::DT(neg, d, h, mi, s, us), pic: &p.text, toks: &p.toks, f: &p.f, via_display: false }, check);
+                    st.eval(&F { v: V::DT(neg, d, h, mi, s, us), pic: &p.text, toks: &p.toks, f: &p.f, via_display: false, fail_cap: -1 }, check);
                 }
             }
         }
@@ -419,11 +460,26 @@ pub fn run(ctx: &Ctx, st: &mut Stats) {
     for p in &all_pics {
         for v in probes {
             for via_display in [false, true] {
-                st.eval(&F { v, pic: &p.text, toks: &p.toks, f: &p.f, via_display }, check);
+                st.eval(&F { v, pic: &p.text, toks: &p.toks, f: &p.f, via_display, fail_cap: -1 }, check);
             }
         }
     }
     st.mark_exhaustive("(f) applicability matrix: every token x every type", "43 token spellings x 12 probe values (2 per type) x 2 entry points");
+    // (g) very long blank runs (a run is copied whatever its length), one value per type, both entry points
+    st.stratum("(g) very long blank runs x one value per type", true);
+    if ctx.tier != Tier::San {
+        let runs: &[usize] = if ctx.tier == Tier::Thorough { &[4_096, 65_535, 65_536, 65_537, 131_071, 131_072, 1_000_003, 1 << 22] } else { &[65_535, 65_536, 65_537, 131_072] };
+        let heads = [(Ty::Date, "YYYY", "MM", V::Date(2021, 3, 11)), (Ty::Time, "HH24", "MI", V::Time(17, 6, 8, 912_345)), (Ty::Ts, "DD", "FF3", V::Ts(1969, 12, 31, 23, 59, 59, 999_999)), (Ty::Ora, "MON", "SS", V::Ora(9999, 12, 31, 23, 59, 59)), (Ty::YM, "YYYY", "MM", V::YM(true, 12, 11)), (Ty::DT, "DD", "HH24", V::DT(false, 99, 23, 0, 1, 5))];
+        for &n in runs {
+            let run = " ".repeat(n);
+            for (k, (_ty, a, b, v)) in heads.iter().enumerate() {
+                if let Some(p) = pic(st, &format!("{}{}{}", a, run, b), Some("C04/documented-token-picture-rejected")) {
+                    st.eval(&F { v: *v, pic: &p.text, toks: &p.toks, f: &p.f, via_display: k % 2 == 0, fail_cap: -1 }, check);
+                    st.eval(&F { v: *v, pic: &p.text, toks: &p.toks, f: &p.f, via_display: k % 2 == 1, fail_cap: -1 }, check);
+                }
+            }
+        }
+    }
     // (e) random composite pictures x random values of all types
     let n = ctx.tier.pick(400, 600_000, ctx.big(12_000_000, 80_000_000));
     ctx.par(st, "(e) random composite pictures x random values, all six types", false, 0, n, |st, _, rng| {
@@ -438,7 +494,8 @@ pub fn run(ctx: &Ctx, st: &mut Stats) {
         let v = rand_value(rng, ty);
         let via_display = rng.chance(1, 4);
         let h = mix(hash64(p.text.as_bytes()), hash64(v.show().as_bytes()));
-        st.eval_h(h, &F { v, pic: &p.text, toks: &p.toks, f: &p.f, via_display }, check);
+        let fail_cap = if h >> 20 & 7 == 0 { (h >> 24 & 31) as i32 } else { -1 };
+        st.eval_h(h, &F { v, pic: &p.text, toks: &p.toks, f: &p.f, via_display: via_display || fail_cap >= 0, fail_cap }, check);
     });
     let _ = civil_from_days;
 }
@@ -455,7 +512,7 @@ pub fn replay(v: &Value, st: &mut Stats) -> bool {
     };
     let p = jstr(v, "picture");
     match pic(st, &p, Some("C04/documented-token-picture-rejected")) {
-        Some(pc) => st.eval(&F { v: val, pic: &pc.text, toks: &pc.toks, f: &pc.f, via_display: v.get("via_display").and_then(|x| x.as_bool()).unwrap_or(false) }, check),
+        Some(pc) => st.eval(&F { v: val, pic: &pc.text, toks: &pc.toks, f: &pc.f, via_display: v.get("via_display").and_then(|x| x.as_bool()).unwrap_or(false), fail_cap: v.get("fail_cap").and_then(|x| x.as_i64()).unwrap_or(-1) as i32 }, check),
         None => {}
     }
     true
